@@ -104,8 +104,23 @@ def run(ctx, chk):
                    msg="the number of records to prune must be computed over records older than the new stamp only "
                        "(abandoned-future records must not count against the retention window)")
     # DECODE subset
-    subset = [b for b in c17.decoder_bodies(P) if "ChangeCursor" in b or "parse_change_data" in b
-              or "parse_raw_change_data" in b]
+    subset = [b for b in c17.decoder_bodies(P, O) if "ChangeCursor" in b or "parse_change_data" in b
+              or "parse_raw_change_data" in b or "::rollback::" in b or "::change::" in b]
+    cur = "vecdb::base::change::cursor::ChangeCursor::<'a>::"
+    chkrem = M(r"vecdb::base::change::cursor::ChangeCursor::<'a>::check_remaining", reach="must")
+    for meth in ("read_u64", "read_stamp", "skip", "read_values"):
+        B = O.body(cur + meth)
+        a_sites = O.sites(B, chkrem)
+        inn = O.seen_before(B, a_sites)
+        adv = [b for b in B.reachable() for st in B.blocks[b]["stmts"]
+               if st[0] == "assign" and any(isinstance(e, list) and e[0] == "f" and e[2] == "pos" for e in st[1]["p"])]
+        idx = [b for b, t in B.calls() if any(n.endswith("Index::index") or n.endswith("::get") for n in names(t))
+               and "bytes" in str(O.slice_back(B, t["args"][0])["fields"])]
+        bad = [b for b in adv + idx if not inn[b]]
+        chk.oblige("D16.7 ChangeCursor::%s: check_remaining precedes every access to `bytes` and every advance of `pos`"
+                   % meth, bool(a_sites) and not bad, key="D16.7|ChangeCursor::%s|unchecked-window" % meth,
+                   msg="a truncated change record must be refused: each read checks that the whole window lies inside the "
+                       "record before touching it")
     if len(subset) < 8:
         raise AnchorMissing("expected >= 8 change-record decoder bodies, found %d" % len(subset))
     total, kinds = c17.run_sites(ctx, chk, subset, prefix="D16")
